@@ -624,11 +624,6 @@ pub fn child(args: &Args) {
                 log(format!("gate_open:{i}"));
                 GATES.lock().unwrap()[*i] = true;
             }
-            if ws {
-                std::thread::sleep(Duration::from_millis(15));
-                log("ws_gate_open");
-                WS_GATE.store(true, Ordering::SeqCst);
-            }
             // read the responses of the slow requests, then close everything
             for (i, c) in conns.iter_mut().enumerate() {
                 c.set_read_timeout(Some(Duration::from_secs(5))).ok();
@@ -638,6 +633,16 @@ pub fn child(args: &Args) {
             }
             drop(conns);
             if ws {
+                // every other session is over before the upgraded one is allowed to finish: a `howl` that does not count the upgraded
+                // session returns now (seen in the log as howl_returned before ws_session_end), whatever the machine load. The pause only
+                // gives such a return time to happen; a correct `howl` is still waiting after it.
+                for c in std::mem::take(&mut idles) { drop(c); log("idle_closed"); }
+                let t = Instant::now();
+                while !HOWL_RETURNED.load(Ordering::SeqCst) && t.elapsed() < Duration::from_millis(400) {
+                    std::thread::sleep(Duration::from_millis(5));
+                }
+                log("ws_gate_open");
+                WS_GATE.store(true, Ordering::SeqCst);
                 // the upgraded session ends when its handler is through; the client waits for that before it hangs up
                 let t = Instant::now();
                 while !LOG.lock().unwrap().iter().any(|(_, e)| e == "ws_session_end") && t.elapsed() < Duration::from_secs(5) {
